@@ -548,3 +548,17 @@ example :
     let B : Img Int := { shape := [2, 3], data := #[41, 41, 40, -7, 40, 41] }
     (regModel false B (neighbours [3, 3] (C01.crossElem 2 1))).toList =
       (regModel false A (neighbours [3, 3] (C01.crossElem 2 1))).toList := by decide
+
+/-- **the two arrays the driver prints for `reg` agree** (`model=` from the scan + stack flood of
+`remove_fake_regmin_max`, `spec=` from the fixed-point iteration): for every image of every rank and shape, every
+cross / disk / odd box of that rank (as given, centre set or not) and every pixel inside the image, the model of
+`regmax`/`regmin` and the executable specification `regSpec` give the same flag. -/
+theorem C14_reg_model_eq_regspec (isMin : Bool) (A : Img Int) (S : List Nat) (bc : Array Int)
+    (hfam : C01.CrossBoxDisk A.shape.length S bc) (q : List Int) (hq : inside A.shape q = true) :
+    (regModelRaw isMin A S bc).getD (ravelI A.shape q) false =
+      (regSpec isMin A (neighbours S bc)).getD (ravelI A.shape q) false := by
+  have h1 := C14_regional_eq_spec_cross_box_disk isMin A S bc hfam q hq
+  have h2 := (C14_regspec_eq_regional isMin A (neighbours S bc) (symNb_family hfam.regular A rfl)).2 q hq
+  rw [regModelRaw_eq]
+  cases ha : (regModel isMin A (neighbours S bc)).getD (ravelI A.shape q) false <;>
+    cases hb : (regSpec isMin A (neighbours S bc)).getD (ravelI A.shape q) false <;> simp_all
